@@ -741,4 +741,7 @@ def run(chk):
     from verif import narrow
     narrow.run_offwidth(chk, "C10")
 
+    from verif import fallthrough
+    fallthrough.run(chk, "C10", floor=13)
+
     chk.assumptions += ["the positional seek arithmetic of ESmry::loadData / ExtESmry is not analysed (runtime quantities)"]
